@@ -144,6 +144,10 @@ class Cast(StrCompareMixin, pmbl.Call):
     def __getinitargs__(self):
         return (self.name, self.expression, self.kind)
 
+    def __setstate__(self, state):
+        # `name` and `expression` are read-only properties: rebuild from the init args
+        self.__init__(*state)
+
     mapper_method = intern('map_cast')
 
     @property
